@@ -20,9 +20,14 @@ def mismatchAt (lk : Lookup) (t q : List UInt8) (i j : Nat) : Bool :=
     | _, _ => true
   | _, _ => true
 
+/-- the mismatch flags of the `n` columns of the diagonal from `(a, b)` -/
+def flagsFrom (lk : Lookup) (t q : List UInt8) : Nat → Nat → Nat → List Bool
+  | _, _, 0 => []
+  | a, b, n + 1 => mismatchAt lk t q a b :: flagsFrom lk t q (a + 1) (b + 1) n
+
 /-- number of mismatching columns between `t[a : a+n]` and `q[b : b+n]` -/
 def mismatches (lk : Lookup) (t q : List UInt8) (a b n : Nat) : Nat :=
-  (List.range n).countP fun i => mismatchAt lk t q (a + i) (b + i)
+  (flagsFrom lk t q a b n).countP id
 
 /-- `t[a : a+n]` and `q[b : b+n]` are windows inside the sequences that differ in at most `e`
     substitutions -/
@@ -31,6 +36,14 @@ def EpsMatch (lk : Lookup) (t q : List UInt8) (n e a b : Nat) : Prop :=
 
 instance (lk : Lookup) (t q : List UInt8) (n e a b : Nat) : Decidable (EpsMatch lk t q n e a b) := by
   unfold EpsMatch; infer_instance
+
+/-- offsets `i ≤ n - k` at which the match shares a k-mer: the words at `t[a+i]` and `q[b+i]`
+    are defined and equal (the pair lies on the diagonal of the match) -/
+def sharedKmers (lk : Lookup) (k : Nat) (t q : List UInt8) (a b n : Nat) : List Nat :=
+  (List.range (n + 1 - k)).filter fun i =>
+    match Biogo.Spec.Kmer.wordAt lk k t (a + i), Biogo.Spec.Kmer.wordAt lk k q (b + i) with
+    | some w, some w' => w == w'
+    | _, _ => false
 
 /-- a reported filter hit: query interval `[from, to)` and the diagonal `a - b` of the upper edge
     of its band; the band is `tubeWidth = TubeOffset + MaxError` diagonals wide (this is how
